@@ -24,7 +24,8 @@ var wallets = []string{
 // KeyIndex returns the internal/keygen key index of an identity (-1 if unknown).
 func KeyIndex(identity string) int {
 	for i, n := range nodeIDs {
-		if n == identity {
+		// a node id may be spelled with a 0x prefix or upper-case digits (discv5.HexID accepts both)
+		if strings.EqualFold(n, strings.TrimPrefix(strings.TrimPrefix(identity, "0x"), "0X")) {
 			return i
 		}
 	}
